@@ -56,38 +56,58 @@ Theorem C20_existing_account_reused : forall s c a ls s1,
 Proof. exact existing_account_reused. Qed.
 Print Assumptions C20_existing_account_reused.
 
-(** Clause 4: a completely stored account is modified only by deleteAccountLocally, run by a
-    thread of that very CA (the directory in use — the defect fixed by f80e244 is excluded) to
-    which the CA answered accountDoesNotExist for the account it held, which the CA has indeed
-    forgotten. *)
+(** Clause 4, at full strength and for every schedule (any number of issuances in flight): a
+    completely stored account is modified only by deleteAccountLocally, run under the
+    registration lock by a thread of that very CA (the directory in use — the defect fixed by
+    f80e244 is excluded) to which the CA answered accountDoesNotExist for exactly the account
+    that is stored (the defects fixed by 6e1a233 and f0aaa6b are excluded), and which the CA has
+    indeed forgotten. *)
 Theorem C20_replaced_only_if_ca_says_gone : forall s l s1 c a,
   reachable s -> step s l = Some s1 ->
   slots s c = Slot (Some a) (Some a) -> slots s1 c <> slots s c ->
-  exists t m, l = Op t false /\ t_ca (thr s t) = c /\
-              (t_pc (thr s t) = DelReg m \/ t_pc (thr s t) = DelKey m) /\
-              m_loc m <= forgotten s c /\ live s c (m_loc m) = false.
+  exists t m, l = Op t false /\ t_ca (thr s t) = c /\ t_pc (thr s t) = DelReg m /\ lock s = Some t /\
+              m_loc m = a /\ a <= forgotten s c /\ live s c a = false.
 Proof. exact replaced_only_if_ca_says_gone. Qed.
 Print Assumptions C20_replaced_only_if_ca_says_gone.
 
-(** Clause 4 at full strength (the account reported missing IS the stored one) for one issuance
-    at a time; this is the statement the defect fixed by 6e1a233 violated. *)
-Theorem C20_replaced_only_if_ca_says_gone_sequential : forall s l s1 c a,
-  seq_reachable s -> seq_ok s l -> step s l = Some s1 ->
-  slots s c = Slot (Some a) (Some a) -> slots s1 c <> slots s c ->
-  exists t, l = Op t false /\ t_ca (thr s t) = c /\ t_pc (thr s t) = DelReg (MA a a) /\
-            live s c a = false.
-Proof. exact replaced_only_if_ca_says_gone_sequential. Qed.
-Print Assumptions C20_replaced_only_if_ca_says_gone_sequential.
+(** ... in particular an account the CA still knows is never deleted or overwritten, whatever
+    the interleaving (this was refuted by a two-issuance witness before f0aaa6b) *)
+Corollary C20_live_account_never_replaced : forall s l s1 c a,
+  reachable s -> step s l = Some s1 ->
+  slots s c = Slot (Some a) (Some a) -> live s c a = true -> slots s1 c = slots s c.
+Proof.
+  intros s l s1 c a Hr Hs Hsl Hlv. destruct (slot_eqb (slots s1 c) (slots s c)) eqn:E; [apply slot_eqb_eq; exact E|].
+  destruct (C20_replaced_only_if_ca_says_gone s l s1 c a Hr Hs Hsl) as (t & m & _ & _ & _ & _ & _ & _ & X);
+    [intros Y; apply slot_eqb_eq in Y; congruence | congruence].
+Qed.
+Print Assumptions C20_live_account_never_replaced.
 
-(** ... and it is false with two issuances in flight (known finding
-    C20-concurrent-recreate-deletes-live-account; witness replayed on the real code by the
-    corpus case of class concurrent-recreate). *)
-Theorem C20_replaced_only_if_ca_says_gone_concurrent_refuted :
-  exists s l s1 c a,
-    reachable s /\ step s l = Some s1 /\
-    slots s c = Slot (Some a) (Some a) /\ live s c a = true /\ slots s1 c <> slots s c.
-Proof. exact replaced_only_if_ca_says_gone_concurrent_refuted. Qed.
-Print Assumptions C20_replaced_only_if_ca_says_gone_concurrent_refuted.
+(** Clause 1 in terms of what happens to the system rather than of what the client does: every
+    registration beyond the first is paid for by a failed save, a crash between registering and
+    saving, or a re-installation of the CA — concurrent recreations cost nothing extra. *)
+Theorem C20_registrations_bounded_by_reinstallations : forall s c,
+  reachable s -> created s c <= 1 + fsaves s c + crashes s c + resets s c.
+Proof. exact registrations_bounded_by_reinstallations. Qed.
+Print Assumptions C20_registrations_bounded_by_reinstallations.
+
+(** the schedule of the former finding on the repaired model: two accounts, the second issuance
+    reuses the account the first one recreated *)
+Example C20_ex_concurrent_recreate_reuses : 
+  match run init witness_concurrent with
+  | Some s => Nat.eqb (created s 0) 2 && slot_eqb (slots s 0) (Slot (Some 2) (Some 2))
+  | None => false
+  end = true.
+Proof. vm_compute. reflexivity. Qed.
+
+(** no path through newACMEClientWithAccount or the compare-and-delete of the recreate path —
+    success, error, storage fault — leaks the registration lock: in every run in which no Unlock
+    itself failed, the lock is free whenever nothing is in flight. (A failed Unlock is logged and
+    ignored by the code; the model then keeps the lock held: [Examples.unlock_fault_leaves_lock].) *)
+Theorem C20_lock_free_when_quiescent : forall ls s,
+  run init ls = Some s -> unlock_faults init ls = 0 ->
+  (forall t, finished (t_pc (thr s t)) = true) -> lock s = None.
+Proof. exact lock_free_when_quiescent. Qed.
+Print Assumptions C20_lock_free_when_quiescent.
 
 (** the account files of another CA (production vs. test) are never touched *)
 Theorem C20_only_directory_in_use_touched : forall s t f s1 c,
@@ -122,28 +142,23 @@ Print Assumptions C20_https_unless_really_internal.
 
 (** The run-time monitor ([Check.spec_hist], evaluated by the check on the *implementation's*
     observations) is the theorems' statement: on every history — any threads, schedule, faults,
-    crashes, re-installations — on which the observations are those the model expects, its
-    clauses (a) registrations bounded, (b) persisted together, (c) reuse of the stored account,
-    (e) only the directory in use is touched, all hold; clause (d) (no complete, live account is
-    deleted) holds on sequential histories. So a spec failure on an implementation history means
-    that the implementation left the model or that the property fails. *)
+    crashes, re-installations — on which the observations are those the model expects, all its
+    clauses hold: (a) registrations bounded (by failed saves + crashes + re-installations, and
+    by failed saves + crashes + deletions), (b) persisted together, (c) reuse of the stored
+    account, (d) deleteAccountLocally only ever deletes a stored account whose registration the
+    CA has forgotten, (e) only the directory in use is touched. So a spec failure on an
+    implementation history means that the implementation left the model or that the property
+    fails. *)
 Theorem C20_monitor_sound : forall evs s f,
-  replay init evs = Some (s, true) -> final_agree s f = true ->
-  o_ok_e (orun evs) = true /\ spec_cas (orun evs) f 0 (f_cas f) = true.
+  replay init evs = Some (s, true) -> final_agree s f = true -> spec_hist evs f = true.
 Proof. exact monitor_sound. Qed.
 Print Assumptions C20_monitor_sound.
 
-Theorem C20_monitor_sound_sequential : forall evs s f,
-  replay init evs = Some (s, true) -> final_agree s f = true -> seq_hist init evs ->
-  spec_hist evs f = true.
-Proof. exact spec_hist_sound_sequential. Qed.
-Print Assumptions C20_monitor_sound_sequential.
-
 Example C20_ex_monitor :
   (exists s, replay init ex_history = Some (s, true) /\ final_agree s ex_final = true) /\
-  seq_hist init ex_history.
+  o_ok_d (orun ex_history_old) = false.
 Proof.
-  destruct ex_history_agrees as (H1 & H2 & _). split; [exact (model_agrees_hist _ _ H1)|exact H2].
+  destruct ex_history_agrees as (H1 & _). split; [exact (model_agrees_hist _ _ _ _ H1)|exact (proj2 ex_history_old_rejected)].
 Qed.
 
 (** ---- With a configured account key ([AccountKeyPEM]; model [Account.KeyPem]: any number of
@@ -212,10 +227,13 @@ Qed.
     item c20order, regenerated on every run) *)
 Example C20_ex_tie :
   c20_recreate_on_attempt = 0 /\ c20_save_order = [0; 1] /\ c20_storetx_rollback = true /\
-  c20_delete_order = [0; 1] /\ c20_load_order = [0; 1] /\ c20_client_order = [1; 2; 1; 3; 4].
+  c20_delete_order = [0; 1] /\ c20_load_order = [0; 1] /\ c20_client_order = [1; 2; 1; 3; 4] /\
+  c20_cad_order = [2; 5; 6; 7; 8; 9] /\ c20_cad_lock_key = true /\ c20_delete_call_sites = 1 /\
+  c20_recreate_calls = [10; 11; 12; 13].
 Proof.
   destruct tie_recreate_loop as [H1 _]. destruct tie_save_order as [H2 H3].
-  destruct tie_delete_load_order as [H4 H5]. pose proof tie_client_order as H6. auto 10.
+  destruct tie_delete_load_order as [H4 H5]. pose proof tie_client_order as H6.
+  destruct tie_compare_and_delete as (H7 & H8 & H9). pose proof tie_recreate_branch as H10. auto 15.
 Qed.
 
 (** non-vacuity: the hypotheses above are met by non-trivial reachable states *)
@@ -233,10 +251,16 @@ Proof.
 Qed.
 Example C20_ex_stable : exists s, reachable s /\ stable s 0 1.
 Proof. destruct stable_reachable as (s & Hr & Hs). exists s. split; [eexists; exact Hr|exact Hs]. Qed.
-Example C20_ex_sequential_recreate : exists s, seq_reachable s /\
+Example C20_ex_recreate : exists s, reachable s /\
   slots s 0 = Slot (Some 1) (Some 1) /\ exists s1, step s (Op 0 false) = Some s1 /\ slots s1 0 <> slots s 0.
 Proof.
-  destruct sequential_recreate_reachable as (s & Hs & H1 & _ & _ & H2). exists s. auto.
+  destruct recreate_reachable as (s & Hs & H1 & _ & _ & _ & H2). exists s. split; [eexists; exact Hs|auto].
+Qed.
+Example C20_ex_reinstallation_bound_attained : exists s, reachable s /\
+  created s 0 = 1 + fsaves s 0 + crashes s 0 + resets s 0 /\ created s 0 = 2.
+Proof.
+  destruct reinstallation_bound_attained as (s & Hr & H1 & H2 & H3 & H4 & _).
+  exists s. split; [eexists; exact Hr|]. rewrite H1, H2, H3, H4. split; reflexivity.
 Qed.
 Example C20_ex_url : forall internal,
   client_dir (fun u => if str_eqb u [104; 116; 116; 112; 115; 58; 47; 47; 97]%N then Some ([104; 116; 116; 112; 115]%N, [97]%N) else None)
